@@ -22,7 +22,11 @@ CHECKS = {
             "Decoder.tla is checked exhaustively by TLC (InBounds, NoProgressOnError, ErrorSticky, AdvanceExact) over 7 byte "
             "patterns x lengths 0..6 and size arguments -3..8; TLC prints every transition of the reachable graph and each "
             "becomes one implementation test on the real services/decoder (return value, cursor, error flag, no panic); the "
-            "table is then the oracle for all operation sequences up to length 3 (quick) / 4 (thorough) and seeded long ones.",
+            "table is then the oracle for all operation sequences up to length 3 (quick) / 4 (thorough) and seeded long ones. "
+            "Ipp.tla states the reply (version, request id, status, charset, language echoed) and the Print-Job event fields (printer URI, "
+            "user, job name, document) of a request record; requests drawn by TLC from a structural generator (5 operations, 1..2 groups, "
+            "0..7 attributes of every supported value tag with 1..3 values, documents to 64 KiB) are encoded by the harness's own RFC 8010 "
+            "encoder, POSTed to the real ipp service, and the decoded reply and the captured event are compared with the specification.",
             "The decoder is assumed to have no state beyond (buffer, cursor, error flag) - which the exhaustive sequences "
             "check; values are compared through fmt of the Go results.",
             "TLA+ spec + TLC exhaustive, one implementation test per model transition, model table as oracle for exhaustive sequences",
